@@ -606,6 +606,8 @@ def p_onepass(root, op):
     if fam == 'cum':
         return getattr(t, op['agg'])()
     if fam == 'exp':
+        if op['agg'] == 'sum0':
+            return t.expanding(min_periods=0).sum()
         e = t.expanding(min_periods=1)
         if op['agg'] in ('var', 'std'):
             return getattr(e, op['agg'])(ddof=op.get('ddof', 1))
